@@ -44,6 +44,12 @@ H.append(dict(name="bn256.G1.MarshalBinary-roundtrip", pkg="./pairing/bn256", fi
               stubs=["gfpMul (Montgomery conversion by R^2 / by 1, assembly) -> identity on field elements", "(*curvePoint).IsOnCurve -> true"],
               functions=["bn256.(*pointG1).MarshalBinary", "bn256.(*pointG1).UnmarshalBinary", "bn256.(*gfP).Marshal", "bn256.(*gfP).Unmarshal", "bn256.(*curvePoint).MakeAffine"],
               bound="all affine coordinates (2 x 256 bits), and the point at infinity"))
+for k, kn in enumerate(["infinity-representations", "affine"]):
+    H.append(dict(name="bn256.G1.Equal-%s" % kn, pkg="./pairing/bn256", files=["harness/C03/bn_marshal.go"], entry="HarnessBNG1Equal", mode="bv", params={"p0": k}, unwind=200, replay_entry="HarnessBNG1EqualReplay",
+                  renames={BP + "gfpMul": "c03Mont", "(*" + BP + "curvePoint).IsOnCurve": "c03OnCurve"},
+                  stubs=["gfpMul (Montgomery conversion, assembly) -> identity on field elements"],
+                  functions=["bn256.(*pointG1).Equal", "bn256.(*pointG1).MarshalBinary", "bn256.(*curvePoint).MakeAffine", "bn256.(*curvePoint).IsInfinity"],
+                  bound="all coordinate values; z in {0, 1}"))
 for mod, size in [(251, 1), (65521, 2), (16777213, 3)]:
     for bo in [0, 1]:
         for vl in range(0, size + 1):
